@@ -125,7 +125,13 @@ class Acc:
         """kind: short stable classification (used to match known findings); case: replayable."""
         self.violations_total += 1
         if len(self.violations) < self.MAX_VIOL or not any(v["kind"] == kind for v in self.violations):
-            self.violations.append({"kind": kind, "case": jsonable(case), "msg": str(msg)[:2000]})
+            v = {"kind": kind, "case": jsonable(case), "msg": str(msg)[:2000]}
+            sh = getattr(self, "_shard", None)
+            if sh is not None:
+                # where it was found: lets the CLI fall back to re-running this whole shard in a fresh process when the case alone
+                # does not reproduce (state carried from earlier cases of the same shard)
+                v["shard"] = {"mod": sh[0], "fname": sh[1], "item": jsonable(sh[2]), "tier": sh[3]}
+            self.violations.append(v)
 
     def note(self, s):
         if s not in self.notes:
@@ -199,6 +205,7 @@ def _call(args):
     modname, fname, item, tier, seed = args
     mod = sys.modules.get(modname) or __import__(modname, fromlist=["x"])
     acc = Acc()
+    acc._shard = (modname, fname, item, tier)
     try:
         getattr(mod, fname)(acc, item, tier, seed)
     except HarnessError:
@@ -207,6 +214,52 @@ def _call(args):
         raise HarnessError("shard %r of %s.%s died: %s\n%s" % (
             item if len(repr(item)) < 200 else repr(item)[:200], modname, fname, exc, traceback.format_exc()))
     return acc
+
+
+_preloaded = set()
+
+
+def _call_isolated(args):
+    """Run one shard in a forked child of this (pristine) worker process: whatever process-level state the code under test
+    accumulates (class-level caches, module-level tables, stuck threads) dies with the child, so every shard starts from the
+    same state and a violation's replay case -- which re-runs at most its own shard -- is faithful."""
+    import pickle
+    if args[0] not in _preloaded:
+        _preloaded.add(args[0])
+        _preload(args[0])
+    r, w = os.pipe()
+    pid = os.fork()
+    if pid == 0:
+        code = 0
+        try:
+            os.close(r)
+            try:
+                payload = pickle.dumps(("ok", _call(args)), protocol=pickle.HIGHEST_PROTOCOL)
+            except BaseException as exc:
+                payload = pickle.dumps(("err", "%s: %s" % (type(exc).__name__, exc)), protocol=pickle.HIGHEST_PROTOCOL)
+                code = 3
+            with os.fdopen(w, "wb") as f:
+                f.write(payload)
+        finally:
+            os._exit(code)
+    os.close(w)
+    with os.fdopen(r, "rb") as f:
+        data = f.read()
+    os.waitpid(pid, 0)
+    if not data:
+        raise HarnessError("isolated shard %r produced no result (child died)" % (args[2],))
+    kind, val = pickle.loads(data)
+    if kind == "err":
+        raise HarnessError(val)
+    return val
+
+
+def _preload(modname):
+    """import the property module and the code under test once per worker, so that forked shard children inherit them"""
+    mod = sys.modules.get(modname) or __import__(modname, fromlist=["x"])
+    pre = getattr(mod, "preload", None)
+    if pre is not None:
+        pre()
 
 
 class Ctx:
@@ -238,12 +291,15 @@ class Ctx:
         total = Acc()
         modname = mod if isinstance(mod, str) else mod.__name__
         args = [(modname, fname, it, self.tier, self.seed) for it in items]
-        if self.workers <= 1 or len(items) <= 1:
+        m = sys.modules.get(modname)
+        isolate = bool(getattr(m, "ISOLATE_SHARDS", True)) and os.environ.get("VERIF_NO_ISOLATE") != "1"
+        call = _call_isolated if isolate else _call
+        if self.workers <= 1:
             _worker_init(self.seed)
             for a in args:
-                total.merge(_call(a))
+                total.merge(call(a))
         else:
-            for acc in self.pool().imap_unordered(_call, args, chunksize):
+            for acc in self.pool().imap_unordered(call, args, chunksize):
                 total.merge(acc)
         return total
 
@@ -325,9 +381,40 @@ def write_replay(prop_id, viol):
     os.makedirs(d, exist_ok=True)
     body = {"property": prop_id, "kind": viol["kind"], "case": viol["case"], "msg": viol["msg"],
             "replay": "./check %s --replay <this file>" % prop_id}
+    if viol.get("shard"):
+        body["shard"] = viol["shard"]
     name = "%016x.json" % h64(json.dumps([viol["kind"], viol["case"]], sort_keys=True))
     path = os.path.join(d, name)
     with open(path, "w") as f:
         json.dump(body, f, indent=1)
         f.write("\n")
     return path
+
+
+def detuple(x):
+    """lists -> tuples (shard items are tuples; JSON gives lists)"""
+    if isinstance(x, list):
+        return tuple(detuple(v) for v in x)
+    return x
+
+
+def replay_shard(doc):
+    """Fallback replay: re-run the violation's whole shard in this fresh process and return the messages of the violations
+    with the same kind and the same case."""
+    sh = doc.get("shard")
+    if not sh:
+        return []
+    item = unjson(sh["item"])
+    candidates = [detuple(item), item]
+    want_case = json.dumps(doc["case"], sort_keys=True)
+    for it in candidates:
+        try:
+            acc = _call((sh["mod"], sh["fname"], it, sh["tier"], 0))
+        except Exception:
+            continue
+        msgs = [v["msg"] for v in acc.violations if v["kind"] == doc["kind"] and json.dumps(v["case"], sort_keys=True) == want_case]
+        if not msgs:
+            msgs = [v["msg"] for v in acc.violations if v["kind"] == doc["kind"]][:3]
+        if msgs:
+            return ["[reproduced by re-running its shard from the start] " + m for m in msgs]
+    return []
